@@ -135,18 +135,7 @@ func mediaLHSConsistency(c *an.Ctx, rule string, f *an.Func) {
 func runC15(c *an.Ctx) string {
 	const r1 = "R15.1"
 	mediaLHSConsistency(c, r1, c.Func("http", "RequestDecoder"))
-	mediaLHSConsistency(c, r1, c.Func("http", "ResponseDecoder"))
-	// ResponseDecoder
-	decision(c, r1, c.MustFunc(r1, "http", "ResponseDecoder"), an.PathOpts{},
-		mediaCanon(`^\(\(net/http\.Header\)\.Get\(p0\.Header, "Content-Type"\) == ""\)$`, "ctEmpty",
-			`^\(mime\.ParseMediaType\(.*\)#2 == nil\)$`, "parseOK"),
-		append([]string{"ctEmpty", "parseOK"}, mediaAtoms...), mediaFeasible,
-		func(e an.Env) string {
-			if e["ctEmpty"] {
-				return "json"
-			}
-			return respFamily(e)
-		}, famOutcome, "response decoder: Content-Type→codec (empty→json; json|+json, xml|+xml, gob|+gob, text/html|text/plain|+html|+txt→text; default json)")
+	r15ResponseDecoder(c)
 
 	// RequestDecoder
 	decision(c, r1, c.MustFunc(r1, "http", "RequestDecoder"), an.PathOpts{},
@@ -173,6 +162,24 @@ func runC15(c *an.Ctx) string {
 	r15SetContentType(c)
 	r15RequestEncoder(c)
 	return explanationC15
+}
+
+// r15ResponseDecoder: the client's Content-Type→codec table (rule id R15.1;
+// shared with C03, whose result cannot reach the caller through the wrong codec).
+func r15ResponseDecoder(c *an.Ctx) {
+	const r1 = "R15.1"
+	mediaLHSConsistency(c, r1, c.Func("http", "ResponseDecoder"))
+	// ResponseDecoder
+	decision(c, r1, c.MustFunc(r1, "http", "ResponseDecoder"), an.PathOpts{},
+		mediaCanon(`^\(\(net/http\.Header\)\.Get\(p0\.Header, "Content-Type"\) == ""\)$`, "ctEmpty",
+			`^\(mime\.ParseMediaType\(.*\)#2 == nil\)$`, "parseOK"),
+		append([]string{"ctEmpty", "parseOK"}, mediaAtoms...), mediaFeasible,
+		func(e an.Env) string {
+			if e["ctEmpty"] {
+				return "json"
+			}
+			return respFamily(e)
+		}, famOutcome, "response decoder: Content-Type→codec (empty→json; json|+json, xml|+xml, gob|+gob, text/html|text/plain|+html|+txt→text; default json)")
 }
 
 func r15ResponseEncoder(c *an.Ctx) {
